@@ -724,11 +724,14 @@ def stale_copy(func, name, defnode):
         return _STALE_CACHE[ck]
     _STALE_CACHE[ck] = False
     val = getattr(defnode, 'value', None)
-    if val is None:
+    if not isinstance(val, ast.Attribute):
+        return False          # only a plain copy of a location (a computed value keeps the older, flow-insensitive reading)
+    x_ = val
+    while isinstance(x_, (ast.Attribute, ast.Subscript)):
+        x_ = x_.value
+    if not isinstance(x_, ast.Name):
         return False
-    locs = {ast.unparse(x) for x in ast.walk(val) if isinstance(x, ast.Attribute)}
-    if not locs:
-        return False
+    locs = {ast.unparse(val)}
     dline = getattr(defnode, 'end_lineno', None) or defnode.lineno
     writes = []
     for n in _walk_no_nested_funcs(func.node):
